@@ -82,7 +82,12 @@ impl Report {
             }
         }
         for (k, v) in other.dist {
-            *self.dist.entry(k).or_insert(0) += v;
+            if k.contains(".max-") || k.contains(".deepest") {
+                let e = self.dist.entry(k).or_insert(0);
+                *e = (*e).max(v);
+            } else {
+                *self.dist.entry(k).or_insert(0) += v;
+            }
         }
         self.failures.extend(other.failures);
         self.drift.extend(other.drift);
